@@ -5,7 +5,7 @@ import glob
 import os
 import re
 
-REPO = "/repo"
+REPO = os.environ.get("VERIF_REPO") or "/repo"
 KEYWORDS = re.compile(
     r"\b(PRINT|DIM|IF|FOR|NEXT|WHILE|WEND|DO|LOOP|SELECT|CASE|SUB|FUNCTION|DECLARE|CONST|INPUT|GOTO|GOSUB|"
     r"RETURN|DATA|READ|OPEN|CLOSE|TYPE|END|LET|DEFINT|DEFSTR|DEFLNG|DEFSNG|DEFDBL|ON ERROR|RESUME|LPRINT|"
